@@ -3,7 +3,7 @@
 //@ kind W
 //@ def quick NV=6 NOUT=44 VERIF_ALLOC_MAX=20
 //@ def thorough NV=7 NOUT=44 VERIF_ALLOC_MAX=22
-//@ cbmc all --unwind 12 --unwindset XMLString_patternMatch.0:32,spec_read_output.1:46 --unwinding-assertions
+//@ cbmc all --unwind 12 --unwindset DOMLSSerializerImpl_procCdataSection.0:5,XMLString_patternMatch.0:30,spec_read_output.1:46 --unwinding-assertions
 //@ entry h_cdata_split
 //@ note W: complete for every CDATA node value of length <= NV over the alphabet { ']', '>', 'a', '<' } (split-cdata-sections = true); all loops (stringLen, copyString, catString, patternMatch, the split loop) are the real text, fully unwound, unwinding assertions on
 //@ note stubs (contracts/domser_stubs.inc): the XMLFormatter sink appends to OUT[] and remembers the escape mode; reportError records (severity, code, node); fMemoryManager->allocate is verif_alloc = exactly the requested number of bytes at the END of a pool object (so that one element past `len + 3 + 1` is an out-of-bounds dereference); the ArrayJanitor (release at scope exit) is dropped; procUnrepCharInCdataSection is a stub that forwards a non-empty argument to the sink as one CDATA section (what the real one does when every character is representable: unit domser_unrep_cdata)
